@@ -191,6 +191,18 @@ class Executor:
             run.unfresh.update(unfresh)
         run.success = False
 
+    def note_amended_inputs(self, job_i: int, inp_hashes: Mapping[str, FileHash]):
+        """Remember the hashes of inputs at the time `amend()` handed them to a running step.
+
+        They extend the baseline of the check after the command, see `Run.start_inp_hashes`.
+        """
+        run = self.running.get(job_i)
+        if run is None:
+            return
+        for path, file_hash in inp_hashes.items():
+            if not file_hash.is_unknown:
+                run.start_inp_hashes.setdefault(path, file_hash)
+
     def interrupt(self, sig: int):
         """Send a signal to all currently running step commands, or cancel a running hash."""
         for run in list(self.running.values()):
@@ -343,7 +355,7 @@ class Executor:
         # Hashes are always updated, even for failed commands,
         # so outputs can be removed safely if they are no longer needed.
         new_hash, new_inp_hashes, new_out_hashes = await self._compute_full_step_hash(run)
-        unexpected_input_changes = len(new_inp_hashes) > 0
+        unexpected_input_changes = len(new_inp_hashes) > 0 or len(run.inp_messages) > 0
 
         async with self.db:
             new_hash, wants_defer = self._classify_execution(
@@ -732,6 +744,7 @@ class Executor:
             env_overrides=env_overrides,
         )
         run.inp_digest = step_hash.inp_digest
+        run.start_inp_hashes = dict(result.all_hashes)
         return step_hash, {}
 
     async def _compute_out_step_hash(
@@ -768,10 +781,25 @@ class Executor:
             # Some inputs may be dynamic and still unavailable,
             # for which checking hashes is too early.
             # Therefore, only check the hashes of built and confirmed files.
-            inp_hashes = {
-                rec.path: rec.hash
-                for rec in run.step.inp_paths()
-                if rec.state in (FileState.BUILT, FileState.CONFIRMED)
+            # An input that was validated before the command started, or handed to the running
+            # step by `amend()`, is compared with what it was back then,
+            # whatever the workflow says about the file now:
+            # another step may have recorded a change of the same file in the meantime,
+            # which also moves a built file to OUTDATED and a re-declared static file
+            # through UNCONFIRMED.
+            inp_records = list(run.step.inp_paths())
+            inp_hashes = {}
+            for rec in inp_records:
+                if rec.path in run.start_inp_hashes:
+                    inp_hashes[rec.path] = run.start_inp_hashes[rec.path]
+                elif rec.state in (FileState.BUILT, FileState.CONFIRMED):
+                    inp_hashes[rec.path] = rec.hash
+            # The states in which a changed hash can be recorded under the FAILED cause.
+            # For a file in another state, its own pending confirmation or rebuild records it.
+            recordable = {
+                rec.path
+                for rec in inp_records
+                if rec.state in (FileState.BUILT, FileState.CONFIRMED, FileState.OUTDATED)
             }
             env_deps = list(run.step.env_deps())
             out_hashes = {rec.path: rec.hash for rec in run.step.out_paths()}
@@ -804,7 +832,12 @@ class Executor:
             run.out_missing.extend(out_result.messages)
             run.success = False
 
-        return step_hash, inp_result.new_hashes, out_result.new_hashes
+        new_inp_hashes = {
+            path: file_hash
+            for path, file_hash in inp_result.new_hashes.items()
+            if path in recordable
+        }
+        return step_hash, new_inp_hashes, out_result.new_hashes
 
     #
     # Command execution helper
